@@ -39,10 +39,15 @@ spec fn atyp_code(t: Socks5AddressType) -> u8 { match t { Socks5AddressType::Ipv
 
 
 //@@ octo-squirrel/src/protocol/address.rs:9-13  enum Address  sha=d701f69e752e0952
-#[derive(PartialEq, Eq, Clone)]
+#[derive(PartialEq, Eq)]
 pub enum Address {
     Domain(String, u16),
     Socket(SocketAddr),
+}
+/// R6: the derived Clone of Address (String / SocketAddr clones) is replaced by its specification: a clone is equal to the original
+impl Clone for Address {
+    #[verifier::external_body]
+    fn clone(&self) -> (r: Self) ensures r == *self { unimplemented!() }
 }
 
 impl vstd::std_specs::convert::FromSpecImpl<SocketAddr> for Address {
